@@ -249,6 +249,19 @@ def main():
                 m = drv.ask(f"perm.cyclelens {n} ; {L(lens2)}")
                 if m != " | ".join(L(p) for p in real):
                     ck.correspondence_break("permutationsWithCycleLengths: model and implementation differ (content or order)", {"n": n, "lens": lens2})
+    # larger n, small classes only (the enumeration order of Python sets changes from 9 elements on)
+    for n in (9, 10, 11):
+        for lens in partitions(n):
+            if class_size(n, lens) > (3000 if not ck.thorough else 60000) or len(lens) - lens.count(1) < 1:
+                continue
+            lens2 = lens[:]
+            rng.shuffle(lens2)
+            real = pu.permutations_with_cycle_lenghts(n, lens2)
+            ck.case(["conj", n, lens2], True)
+            ck.count("conjugacy-classes:n>=9")
+            if len({tuple(p) for p in real}) != len(real) or any(cycle_type(p) != sorted(lens) for p in real) or len(real) != class_size(n, lens):
+                ck.violation("C20/conjugacy-class", f"S_{n} class {lens}: enumeration returned {len(real)} permutations ({len({tuple(p) for p in real})} distinct), the class has {class_size(n, lens)}", {"case": {"n": n, "cycle_lengths": lens2}, "observed_count": len(real), "expected_count": class_size(n, lens)})
+                break
     # ---- single-sample constructor
     for _ in range(200 if not ck.thorough else 5000):
         lens = [rng.randint(1, 5) for _ in range(rng.randint(1, 5))]
